@@ -13,6 +13,11 @@ value of every reported key with `Sem.wfm` of the Herbrand instantiation `Ground
 of a call that is not reported is false.  Output: `ok <worlds> t` | `ok <worlds> f <index of the first failing world>` |
 `error <what>`.
 A schedule entry for the goal `(999999)` is the selection code of every goal that has no entry of its own.
+
+`SPECOK nconsts prog bases natoms arities predranks` decides the hypotheses `SpecOK` of the proved theorem
+`ProbLogProofs.C01GroundFO.C01_groundFO_correct_wfm_partial` for the program (`GroundFO.specOKb`, sound by
+`ProbLogProofs.GroundFOSem.specOKb_sound`), with the rank of an atom = the rank of its predicate.  Output:
+`spec t` | `spec f <first failing part>`.
 -/
 open ProbLogModel.Proto ProbLogModel.StoreIO ProbLogModel.Formula ProbLogModel ProbLogModel.GroundFO
 
@@ -85,6 +90,20 @@ def worldOf (n w : Nat) : Array Bool :=
         go k s' (((s' / 65536) % 2 == 1) :: acc)
     (go n (w * 7919 + 17) []).toArray
 
+def pPairsC : SExp → Option (List (Nat × Nat))
+  | .list es => es.mapM (fun (e : SExp) => match e with
+    | .list [.atom a, .atom b] => do some ((← a.toNat?), (← b.toNat?))
+    | _ => none)
+  | _ => none
+
+def specOKStep (P : Prog) (natoms : Nat) (arL prk : List (Nat × Nat)) : String :=
+  let rk := blockRank P arL prk
+  if !GroundAcyclic.nodupB (P.defs.map (·.1)) then "spec f nodup"
+  else if !P.defs.all (fun d => d.2.all (clauseOKb P.nconsts (lookup arL) d.1)) then "spec f clauses"
+  else if !layoutOKb P natoms arL then "spec f layout"
+  else if !GroundAcyclic.wfB (inst P natoms) natoms rk then "spec f acyclic"
+  else if specOKb P natoms arL rk then "spec t" else "spec f"
+
 def step (_ : Unit) (line : String) : Unit × String :=
   ((), match parseLine line with
   | some [SExp.atom "CHECKFO", _o, .atom nc, pr, bases, cs, sc, .atom fuel, .atom na, .atom nch, .atom nw] =>
@@ -108,6 +127,13 @@ def step (_ : Unit) (line : String) : Unit × String :=
         | .error _ => "error model"
       | none => "bad-op prog"
     | _, _, _, _, _, _, _ => "bad-op"
+  | some [SExp.atom "SPECOK", .atom nc, pr, bases, .atom na, ars, prks] =>
+    match nc.toNat?, na.toNat?, pPairsC ars, pPairsC prks with
+    | some nc, some natoms, some arL, some prk =>
+      match pProgC nc pr bases with
+      | some P => specOKStep P natoms arL prk
+      | none => "bad-op prog"
+    | _, _, _, _ => "bad-op"
   | _ => "bad-op")
 
 def main : IO Unit := runDriver () step
